@@ -33,6 +33,21 @@ empty, over the size cap, 1 MiB of newlines / of one line), with and without a l
 formats every record.  Same oracle — terminates within the budget with a fully validated object or a
 clean error, an over-size file is refused unread — plus: the outcome (object / error class / whether
 the file was read) is the same as for the same file under the short name without logging.
+
+The FILE OBJECT behind the name is an input as well (stream "file-objects"; REAL files under the run's `.scratch_*`
+directory, removed afterwards): a FIFO whose other end (a thread) offers the document followed by filler — 64 KiB, cap-1,
+cap, cap+1, 2 MiB, 8 MiB (64 MiB in thorough), only newlines / NULs, nothing; a regular file that GROWS between the loader's
+fstat and its read (to cap, cap+1, 3 MiB) or just before the fstat, one that shrinks; symbolic links (one and two hops) to
+the document, to files of cap / cap+1 / 3 MiB, to /dev/zero, dangling, looping; a directory; a missing file; the character
+devices /dev/zero, /dev/urandom, /dev/full, /dev/null (the worker's address space limited to what it has + 1 GiB while one
+is loaded).  The loader modules' `open` hands out the real file object behind a recorder (`_spy_open`): every call that
+takes octets out of the file is recorded with its SIZE ARGUMENT and the amount handed out; the FIFO's feeder counts what the
+pipe accepted.  Oracle, from "larger than 1 MiB is refused unread … never exhausts memory … terminates promptly": where
+fstat does not tell what a read delivers (FIFO, growing file, device) no read may be issued without a size argument or with
+one above the cap (+1); on EVERY load the total taken out of the file stays <= cap + 1; a FIFO is relieved of at most
+cap + 1 + one pipe buffer (+ 64 KiB read-ahead); the size the loader's own fstat saw > cap means refused unread; the outcome
+is an object that re-validates or a clean error within the budget, never MemoryError.  The model's file oracle gets the size
+fstat reported and the first cap+1 octets on offer (`offered_prefix`) and must give the same outcome and read / not read.
 """
 
 from __future__ import annotations
@@ -68,6 +83,12 @@ ASSUMPTIONS = [
     "the length of the file path and the logging options are no inputs of the model: in stream load-options the model is asked once per (file, policy, non-logging options) and every other member of the group is compared with that base on the implementation's side",
     "options whose name starts with `log` are taken to concern logging only (log_contents); any other optional parameter (raise_original) may change the outcome and separates groups",
     "path lengths are counted in characters of str(path) (ASCII components); the file system's own limits (NAME_MAX 255, PATH_MAX 4096) bound the lattice at 4000",
+    "file objects: the loaders obtain their file through the module-level name `open` of kskm.ksr.load / kskm.skr.load (replaced by a pass-through recorder around the REAL file object); "
+    "octets taken by other means (os.read on the descriptor, a second open elsewhere) are not in the record of read calls but still show in what the FIFO's feeder saw accepted and in the "
+    "memory / time the devices cost",
+    "a FIFO whose other end stays open and silent blocks any reader for ever: the feeder always closes after its offer (a stalled peer is the environment, not a byte string offered as a file)",
+    "the bound on what may leave a FIFO is cap + 1 + the pipe's capacity (F_GETPIPE_SZ, 64 KiB here) + 64 KiB for a buffered reader's read-ahead; an unbounded read on a quiescent regular "
+    "file that passed the size gate is counted (read-call:unbounded-on-a-quiescent-regular-file) but is no failing input: it delivers at most the size checked",
 ]
 TRUSTED = ["the watchdog pool of corr_C13 (timing, kill/restart)", "Python's `re` as the reference for the three matchers (regex_diff)"]
 
@@ -201,8 +222,14 @@ def _classify(exc: BaseException) -> dict[str, Any]:
     return out
 
 
-def _spy_open(counter: dict[str, int]) -> Any:
+def _spy_open(counter: dict[str, Any], hook: Any = None) -> Any:
+    """`open` for the loader modules: the REAL file object behind a thin recorder.  Every call that takes octets out of the file
+    (read, read1, readall, readline, readlines, readinto, iteration — whatever the loader uses) is passed through unchanged and
+    recorded as [method, size argument (None = no bound given), octets handed out]; `hook(event)` is told about `fileno` (the
+    loader is about to fstat) and about the first read, so that a file can change between the two."""
     import builtins
+
+    counter.setdefault("reads", [])
 
     class _F:
         def __init__(self, f: Any) -> None:
@@ -215,17 +242,249 @@ def _spy_open(counter: dict[str, int]) -> Any:
             self._f.close()
 
         def fileno(self) -> int:
-            return self._f.fileno()
+            fd = self._f.fileno()
+            if hook is not None:
+                hook("fileno")
+            try:
+                counter["fstat_size"] = os.fstat(fd).st_size  # what the loader's fstat is about to see
+            except OSError:
+                pass
+            return fd
 
-        def read(self, *a: Any) -> bytes:
+        def _take(self, name: str, a: tuple[Any, ...], k: dict[str, Any]) -> Any:
             counter["read"] += 1
-            return self._f.read(*a)
+            if hook is not None and counter["read"] == 1:
+                hook("read")
+            size = a[0] if a else k.get("size", k.get("hint"))
+            if name == "readinto" and a:
+                try:
+                    size = len(a[0])
+                except TypeError:
+                    size = None
+            rec = [name, size if isinstance(size, int) and not isinstance(size, bool) else None, None]
+            counter["reads"].append(rec)
+            try:
+                got = getattr(self._f, name)(*a, **k)
+            except BaseException as exc:  # noqa: BLE001
+                rec[2] = type(exc).__name__
+                raise
+            rec[2] = got if isinstance(got, int) else sum(len(x) for x in got) if isinstance(got, list) else len(got) if got is not None else 0
+            return got
+
+        def read(self, *a: Any, **k: Any) -> Any:
+            return self._take("read", a, k)
+
+        def __getattr__(self, name: str) -> Any:
+            attr = getattr(self._f, name)
+            if name.startswith("read") and callable(attr) and name != "readable":
+                return lambda *a, **k: self._take(name, a, k)
+            return attr
+
+        def __iter__(self) -> Any:
+            return self
+
+        def __next__(self) -> Any:
+            line = self._take("readline", (), {})
+            if not line:
+                raise StopIteration
+            return line
 
     def _open(*a: Any, **k: Any) -> Any:
         counter["open"] += 1
         return _F(builtins.open(*a, **k))
 
     return _open
+
+
+# --------------------------------------------------------------------------------------
+# the FILE OBJECT is an input: what a path can name besides a quiescent regular file
+# --------------------------------------------------------------------------------------
+
+CAP = 1 << 20  # the property's cap ("larger than 1 MiB is refused unread"); compared with MAX_KSR_SIZE / MAX_SKR_SIZE in run()
+FIFO_CHUNK = 1 << 16
+
+
+def _filler(fill: str, n: int) -> bytes:
+    unit = {"space": b" ", "newline": b"\n", "nul": b"\x00", "x": b"x"}[fill]
+    return unit * max(0, n)
+
+
+def offered_prefix(c: dict[str, Any], n: int) -> bytes | None:
+    """the first n octets a file-object case OFFERS to a reader (None: not determined by the case, e.g. /dev/urandom)"""
+    src = c.get("source") or {}
+    t = src.get("type")
+    data: bytes = c["bytes"]
+    if t in ("fifo", "growing"):
+        total = max(src.get("total", len(data)), len(data))
+        return (data + _filler(src.get("fill", "space"), min(total, n) - len(data)))[:n]
+    if t == "shrinking":
+        return data[: src["to"]][:n]
+    if t == "device":
+        return {"/dev/zero": b"\x00" * n, "/dev/full": b"\x00" * n, "/dev/null": b""}.get(src["path"])
+    if t == "symlink":
+        if src.get("target"):
+            return offered_prefix({"bytes": data, "source": {"type": "device", "path": src["target"]}}, n)
+        pad = c.get("pad_to")
+        return (data + b" " * ((pad or 0) - len(data)))[:n]
+    return None
+
+
+class _Source:
+    """Sets up what the path names, lets it change while the loader works, and reports what was taken from it."""
+
+    def __init__(self, spec: dict[str, Any], fn: Path, data: bytes, budget: float) -> None:
+        self.spec = spec
+        self.t = spec["type"]
+        self.fn = fn
+        self.data = data
+        self.budget = budget
+        self.extra: list[Path] = []
+        self.obs: dict[str, Any] = {"file_kind": self.t}
+        self.thread: Any = None
+        self.stop = False
+        self.done_events: set[str] = set()
+
+    # -- what the loader is handed
+    def setup(self) -> Path:
+        t, fn = self.t, self.fn
+        if t == "fifo":
+            os.mkfifo(fn)
+            import threading
+
+            self.thread = threading.Thread(target=self._feed, daemon=True)
+            self.thread.start()
+            return fn
+        if t in ("growing", "shrinking"):
+            fn.write_bytes(self.data)
+            return fn
+        if t == "symlink":
+            target: Path | str
+            if self.spec.get("target"):
+                target = self.spec["target"]
+            else:
+                target = fn.with_name(fn.name + ".target")
+                Path(target).write_bytes(self.data)
+                self.extra.append(Path(target))
+            for hop in range(self.spec.get("hops", 1) - 1):
+                mid = fn.with_name(fn.name + f".hop{hop}")
+                os.symlink(target, mid)
+                self.extra.append(mid)
+                target = mid
+            os.symlink(target, fn)
+            return fn
+        if t == "symlink-dangling":
+            os.symlink(fn.with_name(fn.name + ".nowhere"), fn)
+            return fn
+        if t == "symlink-loop":
+            other = fn.with_name(fn.name + ".loop")
+            os.symlink(other, fn)
+            os.symlink(fn, other)
+            self.extra.append(other)
+            return fn
+        if t == "directory":
+            fn.mkdir()
+            return fn
+        if t == "missing":
+            return fn
+        if t == "device":
+            return Path(self.spec["path"])
+        raise KeyError(t)
+
+    def stat_size(self, path: Path) -> int | None:
+        try:
+            return os.stat(path).st_size
+        except OSError:
+            return None
+
+    # -- the file changes while the loader holds it
+    def hook(self, event: str) -> None:
+        if event in self.done_events or self.spec.get("at", "read") != event:
+            return
+        self.done_events.add(event)
+        if self.t == "growing":
+            total = self.spec["total"]
+            with open(self.fn, "ab") as f:
+                f.write(_filler(self.spec.get("fill", "space"), total - len(self.data)))
+            self.obs["grew_to"] = total
+        elif self.t == "shrinking":
+            os.truncate(self.fn, self.spec["to"])
+            self.obs["shrank_to"] = self.spec["to"]
+
+    def _feed(self) -> None:
+        """the other end of the FIFO: offers `total` octets (the document, then filler) and closes"""
+        import errno
+        import fcntl
+
+        total = max(self.spec.get("total", len(self.data)), len(self.data))
+        deadline = time.monotonic() + self.budget + 1.0
+        fd = None
+        while fd is None and not self.stop and time.monotonic() < deadline:
+            try:
+                fd = os.open(self.fn, os.O_WRONLY | os.O_NONBLOCK)
+            except OSError as exc:
+                if exc.errno not in (errno.ENXIO, errno.ENOENT):
+                    self.obs["feeder_error"] = repr(exc)
+                    return
+                time.sleep(0.001)
+        if fd is None:
+            self.obs["fifo_never_opened_for_reading"] = True
+            return
+        accepted = 0
+        try:
+            fcntl.fcntl(fd, fcntl.F_SETFL, fcntl.fcntl(fd, fcntl.F_GETFL) & ~os.O_NONBLOCK)
+            try:
+                self.obs["pipe_capacity"] = fcntl.fcntl(fd, 1032)  # F_GETPIPE_SZ
+            except OSError:
+                self.obs["pipe_capacity"] = 1 << 16
+            fill = _filler(self.spec.get("fill", "space"), FIFO_CHUNK)
+            pos = 0
+            while pos < total and not self.stop:
+                chunk = self.data[pos : pos + FIFO_CHUNK] if pos < len(self.data) else fill[: min(FIFO_CHUNK, total - pos)]
+                try:
+                    n = os.write(fd, chunk)
+                except (BrokenPipeError, OSError):
+                    self.obs["reader_closed_early"] = True
+                    break
+                pos += n
+                accepted += n
+        finally:
+            self.obs["offered"] = total
+            self.obs["accepted_by_pipe"] = accepted  # = taken by the reader + what was left in the pipe buffer
+            try:
+                os.close(fd)
+            except OSError:
+                pass
+
+    def finish(self) -> dict[str, Any]:
+        self.stop = True
+        if self.thread is not None:
+            self.thread.join(timeout=1.0)
+            if self.thread.is_alive():
+                # the loader is done but the feeder still blocks in write (the loader leaked its descriptor): drain the pipe so that
+                # the thread can end; the count of accepted octets is then no longer the loader's doing
+                self.obs["drained_by_harness"] = True
+                try:
+                    fd = os.open(self.fn, os.O_RDONLY | os.O_NONBLOCK)
+                    t_end = time.monotonic() + 2.0
+                    while self.thread.is_alive() and time.monotonic() < t_end:
+                        try:
+                            if not os.read(fd, 1 << 20):
+                                time.sleep(0.001)
+                        except BlockingIOError:
+                            time.sleep(0.001)
+                    os.close(fd)
+                except OSError:
+                    pass
+            self.thread.join(timeout=2.0)
+        for pth in [self.fn] + self.extra:
+            try:
+                if pth.is_dir() and not pth.is_symlink():
+                    pth.rmdir()
+                else:
+                    pth.unlink()
+            except OSError:
+                pass
+        return self.obs
 
 
 NAME_MAX = 255
@@ -337,10 +596,31 @@ def _impl(p: dict[str, Any], scratch: Path) -> dict[str, Any]:
             fn.parent.mkdir(parents=True, exist_ok=True)
         else:
             fn = scratch / f"in_{os.getpid()}.xml"
-        fn.write_bytes(data)
-        counter = {"open": 0, "read": 0}
+        # … and so is the KIND of file behind the name (p["source"]): a FIFO fed by another thread, a file that grows or shrinks
+        # between fstat and read, symbolic links, character devices, a directory, nothing at all
+        source: _Source | None = None
+        load_path = fn
+        saved_as: tuple[int, int] | None = None
+        if p.get("source"):
+            source = _Source(p["source"], fn, data, p.get("_budget", BUDGET))
+            load_path = source.setup()
+            if p["source"]["type"] in ("device", "symlink") and (p["source"].get("path") or p["source"].get("target")):
+                # an endless device: the worker's address space is limited to what it has now + 1 GiB for the duration of the load
+                import resource
+
+                try:
+                    saved_as = resource.getrlimit(resource.RLIMIT_AS)
+                    vm = int(Path("/proc/self/statm").read_text().split()[0]) * os.sysconf("SC_PAGE_SIZE")
+                    lim = vm + (1 << 30)
+                    resource.setrlimit(resource.RLIMIT_AS, (lim if saved_as[1] == resource.RLIM_INFINITY else min(lim, saved_as[1]), saved_as[1]))
+                except Exception:  # noqa: BLE001
+                    saved_as = None
+        else:
+            fn.write_bytes(data)
+        counter: dict[str, Any] = {"open": 0, "read": 0}
         mod = kload if kind == "load_ksr" else sload
-        mod.open = _spy_open(counter)  # type: ignore[attr-defined]
+        mod.open = _spy_open(counter, source.hook if source is not None else None)  # type: ignore[attr-defined]
+        stat_before = source.stat_size(load_path) if source is not None else len(data)
         rec = lib.VerifyRecorder().install(sigmod)
         pol = _policy(p["policy"])
         out: dict[str, Any] = {}
@@ -362,10 +642,10 @@ def _impl(p: dict[str, Any], scratch: Path) -> dict[str, Any]:
                 clock.now_us = p["now"]
                 try:
                     if kind == "load_ksr":
-                        obj = kload.load_ksr(fn, pol, **opts)
+                        obj = kload.load_ksr(load_path, pol, **opts)
                         out["outcome"] = {"ok": canon_obj(lib.request_j(obj))}
                     else:
-                        obj = sload.load_skr(fn, pol, **opts)
+                        obj = sload.load_skr(load_path, pol, **opts)
                         out["outcome"] = {"ok": canon_obj(lib.response_j(obj))}
                 except Exception as exc:  # noqa: BLE001
                     out["outcome"] = _classify(exc)
@@ -387,20 +667,33 @@ def _impl(p: dict[str, Any], scratch: Path) -> dict[str, Any]:
                         out["revalidates"] = False
                         out["revalidate_error"] = type(exc).__name__
         finally:
+            if saved_as is not None:
+                import resource
+
+                try:
+                    resource.setrlimit(resource.RLIMIT_AS, saved_as)
+                except Exception:  # noqa: BLE001
+                    pass
             rec.uninstall()
             try:
                 del mod.open  # type: ignore[attr-defined]
             except AttributeError:
                 pass
-            try:
-                fn.unlink()
-            except OSError:
-                pass
+            if source is not None:
+                out["source"] = source.finish()
+            else:
+                try:
+                    fn.unlink()
+                except OSError:
+                    pass
             if tree is not None:
                 shutil.rmtree(tree, ignore_errors=True)
         out["path_chars"] = len(str(fn))
         out["read_called"] = counter["read"] > 0
-        out["size"] = len(data)
+        out["opens"] = counter["open"]
+        out["reads"] = counter["reads"]  # [method, size argument or None, octets handed out] of every call that took octets out of the file
+        # the size the loader's own fstat saw (recorded when it asked for the descriptor); else what stat said before the load
+        out["size"] = counter.get("fstat_size", stat_before if stat_before is not None else 0) if source is not None else len(data)
         return out
     raise KeyError(kind)
 
@@ -426,6 +719,8 @@ def _worker(conn: Any, scratch: str) -> None:
         t0 = time.perf_counter()
         try:
             try:
+                if isinstance(payload, dict) and payload.get("source"):
+                    payload = dict(payload, _budget=budget)
                 signal.setitimer(signal.ITIMER_REAL, budget)
                 out = _impl(payload, sp)
             finally:
@@ -964,6 +1259,52 @@ def size_shapes(tier: str) -> list[tuple[str, str, bytes, int | None]]:
     return out
 
 
+def file_object_cases(tier: str, ksr18: bytes, skr18: bytes) -> list[dict[str, Any]]:
+    """Stream "file-objects": what the path handed to load_ksr / load_skr can name besides a quiescent regular file.
+    name, kind, bytes (the document part), policy, pad_to, source spec, model_big (ask the model although the line is 2 MB)."""
+    out: list[dict[str, Any]] = []
+    for kind, doc, pol in (("load_ksr", ksr18, "request-default"), ("load_skr", skr18, "response-default")):
+
+        def a(name: str, data: bytes, source: dict[str, Any], pad_to: int | None = None, model_big: bool = False) -> None:
+            out.append({"name": name, "kind": kind, "bytes": data, "policy": pol, "pad_to": pad_to, "source": source, "model_big": model_big})
+
+        # a FIFO (process substitution, /dev/stdin): fstat says 0 whatever is on offer; the other end offers the document and then filler
+        a("fifo:document-only", doc, {"type": "fifo", "total": len(doc)})
+        for total, nm in ((1 << 16, "64KiB"), (CAP - 1, "cap-1"), (CAP, "cap"), (CAP + 1, "cap+1"), (2 * CAP, "2MiB"), (8 * CAP, "8MiB")) + (((64 * CAP, "64MiB"),) if tier == "thorough" else ()):
+            a(f"fifo:document+spaces-to-{nm}", doc, {"type": "fifo", "total": total, "fill": "space"}, model_big=(nm == "8MiB"))
+        a("fifo:newlines-8MiB", b"", {"type": "fifo", "total": 8 * CAP, "fill": "newline"})
+        a("fifo:nul-8MiB", b"", {"type": "fifo", "total": 8 * CAP, "fill": "nul"})
+        a("fifo:document+x-to-8MiB", doc, {"type": "fifo", "total": 8 * CAP, "fill": "x"})
+        a("fifo:empty", b"", {"type": "fifo", "total": 0})
+        # a regular file that GROWS after the loader's fstat (at its first read) or just before it (when it asks for the descriptor)
+        for total, nm in ((CAP, "cap"), (CAP + 1, "cap+1"), (3 * CAP, "3MiB")):
+            a(f"growing-after-fstat:document+spaces-to-{nm}", doc, {"type": "growing", "total": total, "fill": "space", "at": "read"}, model_big=(nm == "3MiB"))
+            a(f"growing-before-fstat:document+spaces-to-{nm}", doc, {"type": "growing", "total": total, "fill": "space", "at": "fileno"})
+        a("growing-after-fstat:empty-to-3MiB-newlines", b"", {"type": "growing", "total": 3 * CAP, "fill": "newline", "at": "read"})
+        a("growing-after-fstat:document+x-to-3MiB", doc, {"type": "growing", "total": 3 * CAP, "fill": "x", "at": "read"})
+        # … and one that shrinks
+        a("shrinking-after-fstat:to-half", doc, {"type": "shrinking", "to": len(doc) // 2, "at": "read"})
+        a("shrinking-after-fstat:to-nothing", doc, {"type": "shrinking", "to": 0, "at": "read"})
+        # symbolic links
+        a("symlink:to-document", doc, {"type": "symlink"})
+        a("symlink:two-hops-to-document", doc, {"type": "symlink", "hops": 2})
+        a("symlink:to-file-of-cap", doc, {"type": "symlink"}, pad_to=CAP)
+        a("symlink:to-file-of-cap+1", doc, {"type": "symlink"}, pad_to=CAP + 1)
+        a("symlink:to-file-of-3MiB", doc, {"type": "symlink", "hops": 2}, pad_to=3 * CAP)
+        a("symlink:to-/dev/zero", b"", {"type": "symlink", "target": "/dev/zero"})
+        a("symlink:dangling", b"", {"type": "symlink-dangling"})
+        a("symlink:loop", b"", {"type": "symlink-loop"})
+        # no file at all
+        a("directory", b"", {"type": "directory"})
+        a("missing", b"", {"type": "missing"})
+        # character devices: fstat says 0, the read never ends by itself
+        a("device:/dev/zero", b"", {"type": "device", "path": "/dev/zero"}, model_big=True)
+        a("device:/dev/urandom", b"", {"type": "device", "path": "/dev/urandom"})
+        a("device:/dev/full", b"", {"type": "device", "path": "/dev/full"})
+        a("device:/dev/null", b"", {"type": "device", "path": "/dev/null"})
+    return out
+
+
 # --------------------------------------------------------------------------------------
 # the run
 # --------------------------------------------------------------------------------------
@@ -1005,7 +1346,11 @@ def run(tier: str, driver_ok: bool) -> Result:
         "delete/replace quote, insert/replace char, delete bracket) of the 5 archived KSRs, the archived SKR and 8 generated documents; tree-level grammar violations; "
         "tiny adversarial strings through parse() (trees compared exactly); size shapes 64 KiB .. 1 MiB+1 through load_ksr/load_skr on real files; "
         "every optional parameter of the two loaders (both values, all combinations) x path length {short, 200, 240, 249, 250, 251, 255, 256, 300, 1000, 4000} x 22 valid / invalid files "
-        "x log handler off / on (outcome must equal that under the short name without logging); a case is non-trivial when its text is new"
+        "x log handler off / on (outcome must equal that under the short name without logging); "
+        "the file object behind the name (real files): FIFO fed by a thread with document + filler up to 8 MiB (cap-1 / cap / cap+1 lattice), files growing / shrinking between "
+        "fstat and read or before fstat, symlinks (1-2 hops; to cap / cap+1 / 3 MiB files, to /dev/zero, dangling, loop), directory, missing, /dev/zero, /dev/urandom, /dev/full, /dev/null "
+        "under an address-space limit — with the size argument and yield of every read call recorded (no unbounded read where fstat does not tell the amount; total taken <= cap+1; "
+        "FIFO relieved of <= cap+1 + one pipe buffer); a case is non-trivial when its text is new"
     )
     r = lib.rng("C13")
     quick = tier == "quick"
@@ -1167,6 +1512,9 @@ def run(tier: str, driver_ok: bool) -> Result:
         add_load("load-mutation", "utf8-edge", "load_ksr", s + ksr18.encode(), "request-default")
     for name, ld, data, pad in size_shapes(tier):
         add_load("size", name, ld, data, "request-default" if ld == "load_ksr" else "response-default", pad)
+    # the FILE OBJECT behind the name is an input too: FIFOs, files that change between fstat and read, symbolic links, devices
+    for fc in file_object_cases(tier, ksr18.encode(), skr18.encode()):
+        add_load("file-objects", fc["name"], fc["kind"], fc["bytes"], fc["policy"], fc["pad_to"], source=fc["source"], model_big=fc["model_big"])
 
     # the loaders' OPTIONS and the file NAME are inputs too: every optional parameter of load_ksr / load_skr (read off the
     # signatures; both values of every flag) x path lengths on a lattice x valid and invalid documents, with and without a
@@ -1234,7 +1582,7 @@ def run(tier: str, driver_ok: bool) -> Result:
     pre_lines = []
     pre_idx = []
     for i, c in enumerate(load_cases):
-        if c.get("pad_to") or len(c["bytes"]) > 200000:
+        if c.get("pad_to") or len(c["bytes"]) > 200000 or c.get("source"):
             continue
         try:
             t = c["bytes"].decode()
@@ -1254,7 +1602,7 @@ def run(tier: str, driver_ok: bool) -> Result:
             budget = HANG_CONFIRM_BUDGET
         else:
             budget = BUDGET
-        p = {k: c[k] for k in ("kind", "bytes", "policy", "now", "pad_to", "raise_original", "options", "path_len", "log_sink") if c.get(k) is not None}
+        p = {k: c[k] for k in ("kind", "bytes", "policy", "now", "pad_to", "raise_original", "options", "path_len", "log_sink", "source") if c.get(k) is not None}
         tasks.append((p, budget))
         load_task_case.append(i)
 
@@ -1285,6 +1633,19 @@ def run(tier: str, driver_ok: bool) -> Result:
     load_line_case = []
     for ci, o in zip(load_task_case, load_outs):
         c = load_cases[ci]
+        if c.get("source"):
+            # the model's file oracle: fstat answers what the loader's fstat saw, read(n) hands out the first n octets on offer
+            first = offered_prefix(c, CAP + 1)
+            if first is None or o.get("opens", 0) != 1 or o.get("timeout") or o.get("died") or (len(first) > 300000 and not c.get("model_big")):
+                continue  # nothing to open / not determined by the case / 2 MB line: judged by the property only
+            pol = _policy(c["policy"])
+            load_lines.append({
+                "op": c["kind"], "bytes": first.hex(), "statSize": o.get("size", 0), "policy": lib.request_policy_j(pol) if c["kind"] == "load_ksr" else lib.response_policy_j(pol),
+                "now": c["now"], "verify": o.get("verify", []), "raiseOriginal": False,
+            })
+            load_line_case.append(ci)
+            res.bump("file-object:model-asked")
+            continue
         if len(c["bytes"]) > 300000 and not c.get("pad_to"):
             continue  # MiB-sized documents: judged by the property only (the hex line would be 2+ MB)
         if c.get("group") and not c.get("group_base"):
@@ -1317,7 +1678,7 @@ def run(tier: str, driver_ok: bool) -> Result:
         else:
             key_case["bytes_hex"] = c["bytes"].hex() if len(c["bytes"]) <= 40000 else c["bytes"][:400].hex() + f"...[{len(c['bytes'])} octets]"
             key_case.update({"policy": c["policy"], "now": c["now"], "pad_to": c.get("pad_to"), "raise_original": c.get("raise_original", False)})
-            for k in ("options", "path_len", "log_sink"):
+            for k in ("options", "path_len", "log_sink", "source"):
                 if c.get(k) is not None:
                     key_case[k] = c[k]
         if "recurse" in c:
@@ -1337,15 +1698,24 @@ def run(tier: str, driver_ok: bool) -> Result:
                 res.bump("load-options:log-records-formatted", o["log_records"])
             if c.get("path_len") and o.get("path_chars") not in (None, c["path_len"]):
                 res.disagreement("harness self-test: the file path does not have the requested length", key_case, o.get("path_chars"), c["path_len"])
-        res.count(hashlib.sha1(c["text"].encode() if "text" in c else c["bytes"] + str(c.get("pad_to")).encode()).hexdigest())
+        res.count(hashlib.sha1(c["text"].encode() if "text" in c else c["bytes"] + str(c.get("pad_to")).encode() + (json.dumps([c["kind"], c["source"]], sort_keys=True).encode() if c.get("source") else b"")).hexdigest())
         res.bump("stream:" + c["stream"])
         res.bump("kind:" + c["kind"])
         impl = o.get("outcome")
+        src_spec = c.get("source") or {}
+        fkind = src_spec.get("type")
+        if fkind:
+            detail = src_spec.get("path") or src_spec.get("target") or (src_spec.get("at", "read") if fkind in ("growing", "shrinking") else None)
+            if detail:
+                fkind += ":" + {"read": "after-fstat", "fileno": "before-fstat"}.get(detail, detail)
+            res.bump("file-object:" + c["name"].split(":")[0])
         # 1. the property on the implementation
         if o.get("timeout") or o.get("died"):
             res.bump("impl:timeout" if o.get("timeout") else "impl:worker-died")
             if o.get("died"):
-                res.violation("loading killed the worker process (memory / stack exhaustion)", key_case, key="worker-died", exitcode=o.get("exitcode"))
+                res.violation("loading killed the worker process (memory / stack exhaustion)", key_case, key="worker-died" + (f":file-object:{fkind}" if fkind else ""), exitcode=o.get("exitcode"))
+            elif fkind:
+                res.violation("load exceeds the 10 s budget", key_case, key=f"file-object:{fkind}:timeout", budget_s=budget, reads=o.get("reads"))
             elif m == "hang":
                 res.bump("hang:confirmed")
                 res.violation("does not terminate promptly", key_case, key=hang_key(text_for_key), budget_s=budget, model="hang (proved: KskmProofs.C13 parseAttrs_diverges)")
@@ -1357,8 +1727,38 @@ def run(tier: str, driver_ok: bool) -> Result:
         if o.get("elapsed", 0.0) > 2.0:
             res.bump("impl:slower-than-2s")
             res.notes.append(f"slow: {c['stream']}:{c['name']} {o['elapsed']:.1f}s")
+        # "larger than 1 MiB is refused unread … never exhausts memory": whatever the path names, the loader may not ask the file
+        # for more than the cap in one call (no size argument = no bound), nor take more than the cap from it altogether
+        # (+1: reading one octet beyond the cap to notice an over-size file is bounded all the same)
+        if c["kind"] in ("load_ksr", "load_skr"):
+            reads = o.get("reads") or []
+            what_file = fkind or "regular"
+            for meth, size_arg, got in reads:
+                res.bump("read-call:" + ("size-argument-within-cap" if isinstance(size_arg, int) and 0 <= size_arg <= CAP + 1 else "UNBOUNDED"))
+            unbounded = [rc for rc in reads if not (isinstance(rc[1], int) and 0 <= rc[1] <= CAP + 1)]
+            taken = sum(rc[2] for rc in reads if isinstance(rc[2], int))
+            # a failing input is one on which MORE than the cap left the file (or memory / time ran out, below); a read without bound that
+            # met a file offering no more than the cap (a quiescent regular file that passed the gate, a FIFO with a small document) is counted
+            if unbounded and taken <= CAP + 1 and not any(isinstance(rc[2], str) for rc in reads):
+                res.bump("read-call:unbounded-but-no-more-than-the-cap-was-on-offer")
+            if taken > CAP + 1:
+                res.violation(
+                    ("the loader reads the file without an upper bound on the amount (the size reported by fstat is not the amount a read delivers) and took more than the cap out of it"
+                     if unbounded else "the loader took more than the cap out of the file"),
+                    key_case, key=("unbounded-read:" if unbounded else "read-past-cap:") + what_file, reads=reads, fstat_size=o.get("size"), taken=taken, cap=CAP,
+                    outcome=_short(impl if not (isinstance(impl, dict) and "ok" in impl) else "object"),
+                )
+            src_obs = o.get("source") or {}
+            if src_obs.get("accepted_by_pipe") is not None and not src_obs.get("drained_by_harness"):
+                res.stats["fifo:max_accepted_by_pipe"] = max(res.stats.get("fifo:max_accepted_by_pipe", 0), src_obs["accepted_by_pipe"])
+                allowed = CAP + 1 + src_obs.get("pipe_capacity", 1 << 16) + (1 << 16)
+                if src_obs["accepted_by_pipe"] > allowed:
+                    res.violation(
+                        "the loader consumed more than the cap (plus one pipe buffer) from a FIFO", key_case, key=f"stream-consumed-past-cap:{what_file}",
+                        offered=src_obs.get("offered"), accepted_by_pipe=src_obs["accepted_by_pipe"], allowed=allowed, reads=reads,
+                    )
         if isinstance(impl, dict) and impl.get("fatal"):
-            res.violation(f"loading ends in {impl['fatal']}", key_case, key=impl["fatal"])
+            res.violation(f"loading ends in {impl['fatal']}", key_case, key=(f"file-object:{fkind}:" if fkind else "") + impl["fatal"], reads=o.get("reads"))
             return
         if o.get("escaped"):
             res.violation("a non-Exception BaseException escaped the loader", key_case, key="base-exception", impl=impl)
@@ -1427,7 +1827,7 @@ def run(tier: str, driver_ok: bool) -> Result:
         o = load_outs[k]
         m = load_model.get(ci)
         try:
-            tk = c["bytes"][:1100000].decode("utf-8", "replace")
+            tk = (c["bytes"] if not c.get("source") else (offered_prefix(c, CAP) or b""))[:1100000].decode("utf-8", "replace")
         except Exception:  # noqa: BLE001
             tk = ""
         judge(c, o, m if m is not None else ("hang" if ci in load_hang else None), tasks[n_text + k][1], tk)
@@ -1484,7 +1884,7 @@ def replay(obj: dict[str, Any]) -> Any:
         out["model_now"] = _short(drive([model_line(p)])[0])
     elif "bytes_hex" in c and not c["bytes_hex"].endswith(" octets]"):
         p = {"kind": c["kind"], "bytes": bytes.fromhex(c["bytes_hex"]), "policy": c["policy"], "now": c["now"], "pad_to": c.get("pad_to"), "raise_original": c.get("raise_original", False),
-             "options": c.get("options"), "path_len": c.get("path_len"), "log_sink": c.get("log_sink")}
+             "options": c.get("options"), "path_len": c.get("path_len"), "log_sink": c.get("log_sink"), "source": c.get("source")}
         p = {k: x for k, x in p.items() if x is not None}
     else:
         return out
